@@ -17,7 +17,8 @@ Model/ActivationCode.v gives these records an executable meaning on the model st
 Proofs/ActivationBridge.v proves  fn_ok k f = true -> run_fn f = activate k  ONCE, for every record; the facts
 `fn_ok KDo gen_do_fn = true` ... are then re-checked by computation over all boolean inputs on every run, so a
 rewrite of a condition that keeps its truth table keeps checking, a semantic change does not.
-GroupBy.count / agg are not part of the model: their single statement is checked verbatim."""
+GroupBy.count / agg are translated into grp_comp records (what is iterated, the key, the value of a group);
+AgentSet.shuffle / groupby are statement skeletons modulo local names, docstrings and formatting."""
 import ast
 
 import pyexpr
@@ -29,7 +30,9 @@ Inductive act_call := CallByName | CallCallable.
 Record act_loop := { al_src : act_src; al_guard : bool -> bool; al_call : act_call;
                      al_fwd_args : bool; al_fwd_kwargs : bool }.
 Inductive act_ret := RetSelf | RetList | RetDict | RetOther.
-Record act_fn := { af_test : bool -> bool; af_then : act_loop; af_else : act_loop; af_ret : act_ret }."""
+Record act_fn := { af_test : bool -> bool; af_then : act_loop; af_else : act_loop; af_ret : act_ret }.
+Inductive grp_val := GVLen | GVFuncOfAttrs | GVOther.
+Record grp_comp := { gc_over_items : bool; gc_key_is_name : bool; gc_val : grp_val }."""
 
 
 def _is_self_agents_call(e, meth):
@@ -286,19 +289,67 @@ def _group_fn(name, gen):
             f"     af_else := {loops[1]};\n     af_ret := {r} |}}.")
 
 
-GROUP_SKELETON = {
-    "count": ["return {k: len(v) for k, v in self.groups.items()}"],
-    "agg": ["return {group_name: func([getattr(agent, attr_name) for agent in group]) for group_name, group in self.groups.items()}"],
+def _group_comp(name, gen):
+    """GroupBy.count / agg:  return {<name>: <value of the group> for <name>, <group> in self.groups.items()}
+    count: value = len(group);  agg: value = func([getattr(agent, attr_name) for agent in group])  (in group order).
+    Translated (names of locals are free), not compared as text."""
+    fn = T._find_func(T._find_class(T._parse(SRC), "GroupBy"), name)
+    params = [a.arg for a in fn.args.args]
+    b = _body(fn)
+    if len(b) != 1 or not isinstance(b[0], ast.Return) or not isinstance(b[0].value, ast.DictComp):
+        raise T.Broken(f"GroupBy.{name} is not a single `return {{... for ... in ...}}`")
+    comp = b[0].value
+    if len(comp.generators) != 1 or comp.generators[0].ifs or comp.generators[0].is_async:
+        raise T.Broken("more than one generator / a filter in the dict comprehension")
+    g = comp.generators[0]
+    over_items = ast.unparse(g.iter) == "self.groups.items()"
+    if not (isinstance(g.target, ast.Tuple) and len(g.target.elts) == 2 and all(isinstance(x, ast.Name) for x in g.target.elts)):
+        raise T.Broken("the comprehension does not unpack (name, group)")
+    kname, vname = g.target.elts[0].id, g.target.elts[1].id
+    key_is_name = isinstance(comp.key, ast.Name) and comp.key.id == kname
+    v = comp.value
+    val = "GVOther"
+    if (isinstance(v, ast.Call) and isinstance(v.func, ast.Name) and v.func.id == "len" and len(v.args) == 1 and not v.keywords
+            and isinstance(v.args[0], ast.Name) and v.args[0].id == vname and params == ["self"]):
+        val = "GVLen"
+    elif (isinstance(v, ast.Call) and isinstance(v.func, ast.Name) and v.func.id == "func" and len(v.args) == 1 and not v.keywords
+          and isinstance(v.args[0], ast.ListComp) and params == ["self", "attr_name", "func"]):
+        lc = v.args[0]
+        if len(lc.generators) == 1 and not lc.generators[0].ifs and isinstance(lc.generators[0].target, ast.Name) \
+                and isinstance(lc.generators[0].iter, ast.Name) and lc.generators[0].iter.id == vname:
+            an = lc.generators[0].target.id
+            e = lc.elt
+            if (isinstance(e, ast.Call) and isinstance(e.func, ast.Name) and e.func.id == "getattr" and len(e.args) == 2 and not e.keywords
+                    and isinstance(e.args[0], ast.Name) and e.args[0].id == an and isinstance(e.args[1], ast.Name) and e.args[1].id == "attr_name"):
+                val = "GVFuncOfAttrs"
+    bb = lambda x: "true" if x else "false"  # noqa: E731
+    return f"Definition {gen} : grp_comp := {{| gc_over_items := {bb(over_items)}; gc_key_is_name := {bb(key_is_name)}; gc_val := {val} |}}."
+
+
+# what remains a statement skeleton: AgentSet.shuffle (transcribed by Model/Activation.v:shuffle_new) and AgentSet.groupby
+# (groups_of) - compared modulo the names of local variables, docstrings, comments and formatting
+SKELETONS = {
+    "shuffle": [
+        "v0 = list(self._agents.keyrefs())",
+        "self.random.shuffle(v0)",
+        "if inplace:\n    self._agents.data = {v1: None for v1 in v0}\n    return self\nelse:\n    return AgentSet((v3 for v2 in v0 if (v3 := v2()) is not None), self.random)",
+    ],
+    "groupby": [
+        "v0 = defaultdict(list)",
+        "if isinstance(by, Callable):\n    for v1 in self:\n        v0[by(v1)].append(v1)\nelse:\n    for v1 in self:\n        v0[getattr(v1, by)].append(v1)",
+        "if result_type == 'agentset':\n    return GroupBy({v2: AgentSet(v3, random=self.random) for v2, v3 in v0.items()})\nelse:\n    return GroupBy(v0)",
+    ],
 }
 
 
-def c_group_skeleton():
-    cls = T._find_class(T._parse(SRC), "GroupBy")
-    for name, want in GROUP_SKELETON.items():
-        got = [ast.unparse(s) for s in _body(T._find_func(cls, name))]
+def c_set_skeletons():
+    cls = T._find_class(T._parse(SRC), "AgentSet")
+    for name, want in SKELETONS.items():
+        got = pyexpr.normalized_statements(T._find_func(cls, name))
         if got != want:
-            raise T.Broken(f"GroupBy.{name} changed: {got[0][:150] if got else 'empty'}")
-    return "Definition gen_groupby_count_agg_skeleton_ok : bool := true."
+            diff = [f"{a!r} != {b!r}" for a, b in zip(got, want) if a != b] or [f"{len(got)} statements, expected {len(want)}"]
+            raise T.Broken(f"statement skeleton of AgentSet.{name} changed: " + diff[0][:220])
+    return "Definition gen_shuffle_groupby_skeleton_ok : bool := true."
 
 
 _FB = ("{| af_test := fun is_str => is_str; af_then := {| al_src := SrcStrong; al_guard := fun live => true; al_call := CallCallable; "
@@ -316,5 +367,9 @@ CONSTRUCTS = [
     ("agentset_map_code", SRC, lambda: _fn_facts("AgentSet", "map", "gen_map_fn"), _fb("gen_map_fn")),
     ("groupby_do_code", SRC, lambda: _group_fn("do", "gen_groupby_do_fn"), _fb("gen_groupby_do_fn")),
     ("groupby_map_code", SRC, lambda: _group_fn("map", "gen_groupby_map_fn"), _fb("gen_groupby_map_fn")),
-    ("groupby_count_agg_skeleton", SRC, c_group_skeleton, lambda: "Definition gen_groupby_count_agg_skeleton_ok : bool := false."),
+    ("groupby_count_code", SRC, lambda: _group_comp("count", "gen_groupby_count"),
+     lambda: "Definition gen_groupby_count : grp_comp := {| gc_over_items := false; gc_key_is_name := false; gc_val := GVOther |}."),
+    ("groupby_agg_code", SRC, lambda: _group_comp("agg", "gen_groupby_agg"),
+     lambda: "Definition gen_groupby_agg : grp_comp := {| gc_over_items := false; gc_key_is_name := false; gc_val := GVOther |}."),
+    ("agentset_shuffle_groupby_skeleton", SRC, c_set_skeletons, lambda: "Definition gen_shuffle_groupby_skeleton_ok : bool := false."),
 ]
